@@ -36,23 +36,25 @@ theorem pushEncode_none_iff (d : Bytes) : pushEncode d = none ↔ d.length ≥ 2
 
 /-- the error `__coerce_instance` raises for a token the reference builder cannot encode -/
 def coerceErr : Token → Exc
-  | .op _ => .valueerr
   | .int z => if (numEncode z).length < 2 ^ 32 then .valueerr else structError
-  | .data _ => .valueerr
+  | _ => .valueerr
 
 theorem coerceInstance_eq (t : Token) :
-    coerceInstance t = match tokenBytes t with
-      | some b => .ok b
-      | none => .error (coerceErr t) := by
-  rcases t with n | z | d
+    coerceInstance t =
+      if t = .other then .ok none
+      else match tokenBytes t with
+        | some b => .ok (some b)
+        | none => .error (coerceErr t) := by
+  rcases t with n | z | d | b | _
   · by_cases h : n < 256 <;> simp [coerceInstance, tokenBytes, coerceErr, h]
   · unfold coerceInstance tokenBytes
+    simp only [reduceCtorEq, if_false]
     by_cases h0 : z = 0
     · subst h0; simp [encodeOpN]
     · by_cases h1 : 1 ≤ z ∧ z ≤ 16
       · have h1' : 0 ≤ z ∧ z ≤ 16 := by omega
         simp only [h0, h1, h1', and_self, if_true, if_false, encodeOpN, not_true_eq_false]
-        congr 3; omega
+        congr 4; omega
       · have h1' : ¬ (0 ≤ z ∧ z ≤ 16) := by omega
         simp only [h0, h1, h1', if_false]
         by_cases h2 : z = -1
@@ -60,20 +62,55 @@ theorem coerceInstance_eq (t : Token) :
         · simp only [h2, if_false, bn2vch_eq]
           by_cases h3 : (numEncode z).length < 2 ^ 32
           · simp only [h3, if_true, encodeOpPushdata_eq, coerceErr]
+            rcases pushEncode (numEncode z) with _ | e <;> rfl
           · have : pushEncode (numEncode z) = none := (pushEncode_none_iff _).mpr (by omega)
             simp only [h3, if_false, this, coerceErr]
-  · simp only [coerceInstance, tokenBytes, encodeOpPushdata_eq, coerceErr]
+  · simp only [coerceInstance, tokenBytes, encodeOpPushdata_eq, coerceErr, reduceCtorEq, if_false]
+    rcases pushEncode d with _ | e <;> rfl
+  · rcases b <;> simp [coerceInstance, tokenBytes, encodeOpN]
+  · simp [coerceInstance]
+
+/-- exhausting the generator and joining, against the reference builder -/
+theorem coerceAll_spec (ts : List Token) :
+    (∀ l, coerceAll ts = .ok l → (joinBytes l).toOption = Spec.Script.build ts) ∧
+    (∀ e, coerceAll ts = .error e → Spec.Script.build ts = none) := by
+  induction ts with
+  | nil =>
+    constructor
+    · intro l h; simp only [coerceAll, Except.ok.injEq] at h; subst h; rfl
+    · intro e h; simp [coerceAll] at h
+  | cons t ts ih =>
+    obtain ⟨ih1, ih2⟩ := ih
+    simp only [coerceAll, coerceInstance_eq, Spec.Script.build]
+    by_cases ho : t = .other
+    · subst ho
+      simp only [if_true, tokenBytes]
+      rcases hr : coerceAll ts with e | lr
+      · exact ⟨fun l h => by simp at h, fun e' _ => by first | rfl | trivial | simp⟩
+      · refine ⟨fun l h => ?_, fun e' h => by simp at h⟩
+        simp only [Except.ok.injEq] at h; subst h
+        simp [joinBytes, Except.toOption]
+    · simp only [ho, if_false]
+      rcases ht : tokenBytes t with _ | a
+      · exact ⟨fun l h => by simp at h, fun e' _ => by first | rfl | trivial | simp⟩
+      · simp only
+        rcases hr : coerceAll ts with e | lr
+        · have := ih2 e hr
+          exact ⟨fun l h => by simp at h, fun e' _ => by rw [this]⟩
+        · have := ih1 lr hr
+          refine ⟨fun l h => ?_, fun e' h => by simp at h⟩
+          simp only [Except.ok.injEq] at h; subst h
+          simp only [joinBytes]
+          rcases hj : joinBytes lr with e | x
+          · rw [hj] at this; simp [Except.toOption] at this ⊢; rw [← this]
+          · rw [hj] at this; simp [Except.toOption] at this ⊢; rw [← this]
 
 theorem build_toOption (ts : List Token) : (Model.Script.build ts).toOption = Spec.Script.build ts := by
-  induction ts with
-  | nil => rfl
-  | cons t ts ih =>
-    simp only [Model.Script.build, Spec.Script.build, coerceInstance_eq]
-    rcases tokenBytes t with _ | a
-    · simp [Except.toOption]
-    · rcases hb : Model.Script.build ts with e | r
-      · rw [hb] at ih; simp [Except.toOption] at ih ⊢; rw [← ih]
-      · rw [hb] at ih; simp [Except.toOption] at ih ⊢; rw [← ih]
+  obtain ⟨h1, h2⟩ := coerceAll_spec ts
+  unfold Model.Script.build
+  rcases hc : coerceAll ts with e | l
+  · simp [Except.toOption, h2 e hc]
+  · exact h1 l hc
 
 theorem build_ok_iff (ts : List Token) (b : Bytes) :
     Model.Script.build ts = .ok b ↔ Spec.Script.build ts = some b := by
@@ -179,7 +216,7 @@ theorem readback_token (t : Token) (a : Bytes) (h : tokenBytes t = some a) (hd :
     refine ⟨idx + ((a ++ rest).length - rest.length), ?_, ?_⟩
     · rw [rawIterFrom_of_getOp hg]; simp only [List.map_cons, hc]
     · rw [rawIterFrom_of_getOp hg]
-  rcases t with n | z | d
+  rcases t with n | z | d | b | _
   · -- opcode
     simp only [Token.inDomain] at hd
     simp only [tokenBytes] at h
@@ -234,6 +271,17 @@ theorem readback_token (t : Token) (a : Bytes) (h : tokenBytes t = some a) (hd :
       simp [cookTok, canonTok, this, hd0]
     · have : ¬ o = 0 := fun hc => hd0 (hz.mp hc)
       simp only [cookTok, canonTok, this, show ¬ o > 0x4e by omega, if_false, hd0]
+  · -- bool
+    simp only [tokenBytes, Option.some.injEq] at h
+    subst h
+    rcases b
+    · refine ⟨0, [], ?_, ?_⟩
+      · simp [getOp, lenBytes, declaredSize]
+      · simp [cookTok, canonTok]
+    · refine ⟨0x51, [], ?_, ?_⟩
+      · simp [getOp]
+      · simp [cookTok, canonTok]
+  · simp [tokenBytes] at h
 
 /-- reading a built script back: the canonical tokens, and no error -/
 theorem readback (ts : List Token) : ∀ (s : Bytes) (idx : Nat), Spec.Script.build ts = some s →
@@ -260,7 +308,7 @@ theorem readback (ts : List Token) : ∀ (s : Bytes) (idx : Nat), Spec.Script.bu
 
 /-- rebuilding from the canonical token gives the same bytes -/
 theorem tokenBytes_canonTok (t : Token) (hd : Token.inDomain t) : tokenBytes (canonTok t) = tokenBytes t := by
-  rcases t with n | z | d
+  rcases t with n | z | d | b | _
   · simp only [Token.inDomain] at hd
     by_cases h : 0x51 ≤ n ∧ n ≤ 0x60
     · have h1 : n < 256 := by omega
@@ -280,6 +328,8 @@ theorem tokenBytes_canonTok (t : Token) (hd : Token.inDomain t) : tokenBytes (ca
   · by_cases h : d = []
     · subst h; simp [canonTok, tokenBytes, pushEncode]
     · simp only [canonTok, h, if_false]
+  · rcases b <;> simp [canonTok, tokenBytes]
+  · rfl
 
 theorem build_canon (ts : List Token) (hd : ∀ t ∈ ts, Token.inDomain t) :
     Spec.Script.build (canon ts) = Spec.Script.build ts := by
